@@ -409,7 +409,8 @@ def main():
     a, seed = args_for(PROP)
     res = Result(PROP, a.tier, seed, level="translation_validation")
     rng = random.Random(seed)
-    build_coq()
+    if not os.environ.get("VERIF_SKIP_COQ_BUILD"):   # development only: compile your own files by hand
+        build_coq()
     proof_coverage(PROP, res)
     known = known_for(PROP)
     only = None
